@@ -165,6 +165,8 @@ def classify_output(rc, out, err):
         return 2, "INTERNAL", (mm.group(1) if mm else "") + err[-500:]
     if rc == 0:
         return 0, "", ""
+    if rc == 96:
+        return 1, "HANG", "case exceeded the 20 s CPU-time guard"
     if rc < 0:
         return 1, "SIGNAL/%d" % (-rc), "killed by signal %d\n%s" % (-rc, err[-800:])
     return 2, "INTERNAL", "unexpected exit status %d\n%s" % (rc, err[-800:])
